@@ -129,6 +129,64 @@ def segs_bytes(s):
     return bytes(out)
 
 
+def segs_parse(s):
+    if s == "-" or not s:
+        return []
+    out = []
+    for p in s.split("+"):
+        if "*" in p:
+            h, c = p.split("*")
+            out.append((bytes.fromhex(h), int(c)))
+        else:
+            out.append((bytes.fromhex(p), 1))
+    return out
+
+
+def segs_len(s):
+    return sum(len(u) * c for u, c in segs_parse(s))
+
+
+def _take(runs, n):
+    """first n bytes of runs [(unit, count)...] -> (taken runs, remaining runs)"""
+    out = []
+    runs = list(runs)
+    while n > 0 and runs:
+        u, c = runs[0]
+        ln = len(u) * c
+        if ln <= n:
+            out.append((u, c))
+            n -= ln
+            runs.pop(0)
+            continue
+        full, rem = divmod(n, len(u))
+        if full:
+            out.append((u, full))
+        first = []
+        if rem:
+            out.append((u[:rem], 1))
+            first.append((u[rem:], 1))
+            left = c - full - 1
+        else:
+            left = c - full
+        if left:
+            first.append((u, left))
+        runs = first + runs[1:]
+        n = 0
+    return out, runs
+
+
+def segs_split(s, cuts):
+    """split the byte string denoted by segs `s` at the (sorted) byte positions `cuts` without expanding it"""
+    runs = segs_parse(s)
+    parts, prev = [], 0
+    for c in cuts:
+        t, runs = _take(runs, c - prev)
+        parts.append(segs_join([seg(u, k) for u, k in t]))
+        prev = c
+    parts.append(segs_join([seg(u, k) for u, k in runs]))
+    return parts
+
+
 def digest(b):
     n = len(b)
     head = b[:300].hex() if n else "-"
